@@ -33,8 +33,12 @@ from .tlc import Scratch, parse_tla_tuple, run_tlc, write_cfg
 PID = "C14"
 
 ALL_OPS = {"addv", "scalev", "neg", "dot", "cross", "mixed", "norm", "muls", "adds", "pow"}
-BASE = dict(MaxVec=4, VecLeaves={1, 2, 3, 4}, ScalLeaves={1}, Ints={2}, Pows={2, -1}, Ops=ALL_OPS,
+BASE = dict(MaxVec=4, VecLeaves={1, 2, 3, 4}, ScalLeaves={1}, Ints={2}, Pows={2, -1}, Ops=ALL_OPS, Macros=set(),
             Assigns=vx.ASSIGNS)
+# composite leaf X = cross(a, b): dot products whose both operands are scaled / summed versions of the same cross product
+CROSS_AB = (("vec", 1), ("vec", 2), ("cross", 0))
+SAME_CROSS = dict(VecLeaves={3}, Macros={CROSS_AB}, ScalLeaves={1}, Pows=set(), Ops={"scalev", "addv", "dot"})
+SAME_CROSS_NEG = dict(SAME_CROSS, Ops={"scalev", "addv", "dot", "neg"})
 
 
 def _cfg(**kw):
@@ -52,6 +56,8 @@ CONFIGS = {
         ("wide", "val", _cfg(MaxLen=6), ["TypeOK"]),
         ("products", "val", _cfg(MaxLen=8, ScalLeaves=set(), Ints=set(), Pows={2},
                                  Ops={"dot", "cross", "mixed", "norm", "addv"}), ["TypeOK"]),
+        ("samecross", "val", _cfg(MaxLen=7, MaxVec=5, Ints={2, 3}, **SAME_CROSS_NEG), ["TypeOK"]),
+        ("samecross9", "val", _cfg(MaxLen=9, MaxVec=5, Ints={2}, **SAME_CROSS), ["TypeOK"]),
         ("diff", "diff", _cfg(MaxLen=5, MaxVec=3, VecLeaves={1, 5, 6, 7}, ScalLeaves={3}, Pows={2, -1}), ["TypeOK"]),
     ],
     "thorough": [
@@ -61,6 +67,8 @@ CONFIGS = {
         ("wide0", "val", _cfg(MaxLen=6, ScalLeaves={1, 2}, Ints={0, 2, -1}), ["TypeOK"]),
         ("products", "val", _cfg(MaxLen=10, ScalLeaves=set(), Ints=set(), Pows={2},
                                  Ops={"dot", "cross", "mixed", "norm", "addv", "neg"}), ["TypeOK"]),
+        ("samecross", "val", _cfg(MaxLen=9, MaxVec=5, Ints={2, 3}, **SAME_CROSS_NEG), ["TypeOK"]),
+        ("samecross11", "val", _cfg(MaxLen=11, MaxVec=6, Ints={2}, **SAME_CROSS), ["TypeOK"]),
         ("diff", "diff", _cfg(MaxLen=7, MaxVec=4, VecLeaves={1, 5, 6, 7}, ScalLeaves={3}, Pows={2, -1}), ["TypeOK"]),
     ],
 }
